@@ -822,3 +822,134 @@ def w9_replace_drops_old(prog):
     if not n:
         r.viol('W9', 'set_component/missing', '-', 'no `Contained` cell implements set_component')
     return r
+
+
+@rule('W10', props=['C03', 'C01'], floor=2, configs=('all', 'default'))
+def w10_identifier_cell_reads_its_row(prog):
+    """Single-row views of the identifier column (`view_one` / `view_one_maybe_uninit` of the outer cell that holds
+    `entity::Identifier`): the identifier handed out is the element at `index` of the column rebuilt from
+    `entity_identifiers.0` with the archetype's `length` (or `entity_identifiers.0.add(index)` read directly) — the
+    same row the component views of the tail are taken from (`index`, `length` forwarded unchanged)."""
+    r = Result()
+    S = pathsem.strip_refs
+    for imp in prog.facts['impls']:
+        if not imp['trait'] or not imp['trait']['path'].endswith('contains::views::sealed::ContainsViewsOuter') or imp['self'].get('k') != 'tuple':
+            continue
+        ta = [a for a in imp['trait']['args'][1:] if a.get('k') != 'region']
+        if not (len(ta) > 1 and ta[1].get('k') == 'tuple' and ta[1]['e'] and is_adt(ta[1]['e'][0], 'registry::contains::Contained')):
+            continue
+        for f in prog.impl_methods(imp):
+            if f.name not in ('view_one', 'view_one_maybe_uninit'):
+                continue
+            key = 'ContainsViewsOuter::%s [identifier cell]' % f.name
+            r.inst(key)
+            E = pathsem.analyse(prog, f)
+            rets = [p for p in E.paths if p.ended == 'return']
+            if E.truncated or not rets:
+                r.viol('W10', key + '/not-analysable', f.loc(), 'path enumeration cut off')
+                continue
+            idx = ('p', 1, f.body.local_name(1) or '')
+            ids = ('p', 3, f.body.local_name(3) or '')
+            ln = ('p', 4, f.body.local_name(4) or '')
+
+            def of_ids(t):
+                return pathsem.mentions(t, lambda u: isinstance(u, tuple) and u[0] == 'f' and u[2] == 0 and S(u[1]) == ids)
+            for p in rets:
+                reads = []
+                bad = None
+                roots = [p.ret] + [a_ for e in p.calls(lambda e: True) for a_ in e['args']]
+                for root in roots:
+                    for t in pathsem.subterms(root):
+                        if not (isinstance(t, tuple) and t[0] == 'call' and len(t) > 2 and t[2] and of_ids(t)):
+                            continue
+                        nm = t[1].rsplit('::', 1)[-1]
+                        if nm in ('get_unchecked', 'get_unchecked_mut', 'index', 'index_mut', 'get', 'get_mut', 'add', 'offset', 'wrapping_add') and len(t[2]) == 2 and of_ids(t[2][0]):
+                            reads.append(t)
+                            if S(t[2][1]) != idx:
+                                bad = bad or 'the identifier is read at row %s instead of `index`' % pathsem.tstr(t[2][1])[:60]
+                        if nm in ('from_raw_parts', 'from_raw_parts_mut') and len(t[2]) >= 2 and S(t[2][1]) != ln:
+                            bad = bad or 'the identifier column is rebuilt with length %s instead of the archetype\'s `length`' % pathsem.tstr(t[2][1])[:60]
+                if not reads:
+                    bad = bad or 'no read of the identifier column at `index` found (the first row, or another row, is handed out for every entity)'
+                tails = p.calls(lambda e: e['name'] == f.name and e['path'].endswith('CanonicalViews::' + f.name))
+                for e in tails:
+                    a_ = [S(x) for x in e['args']]
+                    if idx not in a_ or ln not in a_:
+                        bad = bad or 'the component views of the tail are not taken at the same `index` / `length`'
+                if bad:
+                    r.viol('W10', key + '/identifier-row', f.loc(), bad)
+                    break
+    return r
+
+
+@rule('E3', props=['C16', 'C10'], floor=1, configs=('all', 'default'))
+def e3_column_equality_walk(prog):
+    """`registry::eq::Sealed::component_eq` of a cons cell answers `true` only through the tail: every path that
+    returns true has found the tail's `component_eq` true and — when the identifier bit of this cell is set — has
+    compared this cell's two columns (both rebuilt from slot 0 of the two column lists) element-wise and found them
+    equal. A shortcut that answers true from anything else (pointer identity, lengths, capacities) skips the rest of
+    the registry: zero-sized components share one dangling pointer."""
+    r = Result()
+    S = pathsem.strip_refs
+    n = 0
+    for imp in prog.facts['impls']:
+        if not imp['trait'] or not imp['trait']['path'].endswith('registry::eq::sealed::Sealed') or imp['self'].get('k') != 'tuple':
+            continue
+        fs = [f for f in prog.impl_methods(imp) if f.name == 'component_eq']
+        if not fs:
+            continue
+        f = fs[0]
+        n += 1
+        r.inst('registry::eq::Sealed::component_eq for (C, R)')
+        E = pathsem.analyse(prog, f)
+        rets = [p for p in E.paths if p.ended == 'return']
+        if E.truncated or not rets:
+            r.viol('E3', 'component_eq/not-analysable', f.loc(), 'path enumeration cut off')
+            continue
+        ca = ('p', 1, f.body.local_name(1) or '')
+        cb = ('p', 2, f.body.local_name(2) or '')
+
+        def col0(t, who):
+            return pathsem.mentions(t, lambda u: isinstance(u, tuple) and u[0] == 'call' and u[1].rsplit('::', 1)[-1] in ('get_unchecked', 'get_unchecked_mut', 'index', 'first', 'split_first', 'split_first_unchecked', 'get')
+                                    and S(u[2][0]) == who and (len(u[2]) == 1 or S(u[2][1]) == ('c', 0)))
+        rep = set()
+        n_true = 0
+        for p in rets:
+            conds = list(p.conds)
+            verdict = p.ret
+            tails = p.calls(lambda e: e['name'] == 'component_eq')
+            if verdict not in (pathsem.TRUE, pathsem.FALSE):
+                if tails and verdict == tails[-1]['ret']:
+                    conds.append((verdict, True))
+                    verdict = pathsem.TRUE
+                else:
+                    if 'shape' not in rep:
+                        rep.add('shape')
+                        r.viol('E3', 'component_eq/not-analysable', f.loc(), 'cannot read the verdict %s' % pathsem.tstr(verdict)[:60])
+                    continue
+            if verdict != pathsem.TRUE:
+                continue
+            n_true += 1
+            tail_true = [e for e in tails if any(a_ == e['ret'] and v is True for a_, v in conds)]
+            if not tail_true and 'tail' not in rep:
+                rep.add('tail')
+                r.viol('E3', 'component_eq/true-without-tail', f.loc(), 'a path answers true without the rest of the registry having been compared (tail component_eq found true): later components are never compared')
+            bit = [v for a_, v in conds if isinstance(a_, tuple) and isinstance(v, bool) and pathsem.mentions(a_, lambda u: isinstance(u, tuple) and u[0] == 'call' and u[1].endswith('::next'))
+                   and not (a_[0] == 'discr')]
+            if any(v is True for v in bit):
+                def cmp_ok(a_, v):
+                    if not (isinstance(a_, tuple) and a_[0] == 'call' and len(a_[2]) == 2):
+                        return False
+                    nm = a_[1].rsplit('::', 1)[-1]
+                    if not ((nm == 'eq' and v is True) or (nm == 'ne' and v is False)):
+                        return False
+                    x, y = a_[2]
+                    return (col0(x, ca) and col0(y, cb)) or (col0(x, cb) and col0(y, ca))
+                if not any(cmp_ok(a_, v) for a_, v in conds) and 'col' not in rep:
+                    rep.add('col')
+                    r.viol('E3', 'component_eq/column-not-compared', f.loc(), 'with this cell\'s identifier bit set a path answers true without having compared the two columns of this component element-wise')
+        if not n_true:
+            r.viol('E3', 'component_eq/never-true', f.loc(), 'component_eq never answers true')
+    if not n:
+        r.viol('E3', 'component_eq/missing', '-', 'registry::eq::Sealed::component_eq for (C, R) not found')
+    return r
